@@ -272,12 +272,12 @@ def det_case_term(text, ln, st, o):
 # generators
 # ---------------------------------------------------------------------------------------------
 CORPUS = [
-    # witnesses of the two defects fixed in /repo (2466753 lineno offset, 37d25d7 quoted verbatim)
+    # witnesses of the three defects fixed in /repo (2466753 lineno offset, 37d25d7 quoted verbatim, fbbed58 lone percent)
     ("fixed-lineno-second-quoted-tag", "a\n{% x 'q' %}\nb\n{% y 'r' %}\nc\n{% z %}\n{{ v }}"),
     ("fixed-lineno-multiline-quoted-tag", "{%\n x 'q'\n %}\n{% z %}"),
     ("fixed-quoted-verbatim", "{% verbatim 'x' %}{% if %}{% endverbatim 'x' %}"),
     ("fixed-quoted-verbatim-2", "{% verbatim \"x\" %}{{ a }}{# b #}{% c 'd' %}{% endverbatim \"x\" %}{% e 'f' %}\n{{ g }}"),
-    # open finding: lone % in a quoted tag
+    # fixed by fbbed58: lone % (outside strings, not followed by } or a quote) in a quoted tag
     ("lone-percent-raise", "{% a \"c\" %b %}"),
     ("lone-percent-swallow", "{% a \"c\" %b %}x{% d \"e\" %}y"),
     ("lone-percent-double", "{% a \"c\" %%}"),
@@ -320,7 +320,8 @@ def gen_exhaustive(alphabet, maxlen):
 
 
 def rnd_ws(rng):
-    return rng.choice(["", " ", " ", " ", "  ", "\n", " \n ", "\t", " "])
+    # mostly ASCII blanks; now and then one of the other code points str.strip() removes (form feed, FS, NBSP, EM SPACE, ...)
+    return rng.choice(["", " ", " ", " ", "  ", "\n", " \n ", "\t", "\u00a0 ", " ", " ", "\x0c", "\x1c ", " \u2003", "\u3000", "\x85"])
 
 
 def rnd_word(rng):
@@ -338,7 +339,8 @@ def rnd_string(rng):
 
 def rnd_tag(rng, multiline_bias=0.2):
     """a block tag with 0..n quoted strings"""
-    parts = [rnd_ws(rng), rng.choice(["a", "component", "if", "x", "fill", "verbatim", "endverbatim", "verbatim v", "endverbatim v"])]
+    parts = [rnd_ws(rng), rng.choice(["a", "component", "if", "x", "fill", "verbatim", "endverbatim", "verbatim v", "endverbatim v",
+                                        "a", "component", "verbatimx", "verbatim\tv", "verbatim\n", "endverbatimx"])]
     for _ in range(rng.choice([0, 0, 1, 1, 1, 2, 2, 3, 4])):
         parts.append(rng.choice([" ", " ", "  ", "\n", "\n  "]) if rng.random() < multiline_bias + 0.5 else " ")
         r = rng.random()
